@@ -8,11 +8,11 @@ CONSTANTS
   NFiles = 2
   CmtPool <- CmtPoolSim
   MaxMeta = 2
-  HintNames = {"d", "d1", ".", "q", "rand", "go", "pkg_d"}
+  HintNames = {"d", "d1", ".", "q", "rand", "go", "pkg_d", ""}
   MaxCells = 5
   MaxOps = 14
   SysExport = TRUE
   MaxItems = 8
 INVARIANTS Sys_Resolve Sys_Unique Sys_LocalDot Sys_Stable
-PROPERTIES Sys_BoundNeverChanges Sys_FilesIndependent Sys_RenderPure Sys_PlainTouchesNoFile
+PROPERTIES Sys_BoundNeverChanges Sys_FilesIndependent Sys_RenderPure Sys_PlainTouchesNoFile Sys_ContentsOnly
 CHECK_DEADLOCK FALSE
